@@ -1,7 +1,7 @@
 """C16 — serialisation round-trip preserves behaviour.
 
-T1  vk/translate_classes.py regenerates lean/DK/Gen/Classes.lean from the current source when this
-    module is imported (once per check run, before the Lean build); the table theorems of
+T1  `uses_t1 = True`: the runner calls vk.translate.regenerate_all, which calls vk.translate_classes.regenerate and
+    rewrites lean/DK/Gen/Classes.lean from the current source before the Lean build; the table theorems of
     DK/Props/C16.lean are the obligations a source change can break.
 T2  for every case: the (sorted) key set of the real `to_dict()` vs the key set the generated table
     derives for that construction (`serial.tablekeys`) and vs the key set of the model's `toDict`
@@ -16,8 +16,9 @@ from fractions import Fraction
 from .. import common as C, gen, build, translate_classes
 from ..check import Prop, Op
 
-# ---- tie T1: regenerate the class table before anything is built (import happens first in check.run)
-T1 = translate_classes.regenerate(C.REPO)
+def t1():
+  """the class table of the checkout under test (cached by vk.translate_classes: one extraction per run)."""
+  return translate_classes.regenerate(C.REPO)
 
 DEV_FAMILY = ['Device', 'PVDevice', 'CDevice', 'CDevice2', 'IDevice', 'IDevice2', 'GDevice', 'SDevice', 'ADevice']
 LEAF_CLASSES = DEV_FAMILY + ['TDevice', 'WindowDevice']
@@ -408,25 +409,29 @@ def kw_text(o, depth=0):
 class C16(Prop):
   id = 'C16'
   lean_module = 'DK.Props.C16'
-  uses_t1 = False     # own T1 (vk/translate_classes.py), run at import; the kernels' translator is not in this cone
+  uses_t1 = True      # vk.translate.regenerate_all -> vk.translate_classes.regenerate (lean/DK/Gen/Classes.lean)
   theorems = [
     'DK.C16.roundtrip_plain', 'DK.C16.roundtrip_Device', 'DK.C16.roundtrip_PVDevice', 'DK.C16.roundtrip_CDevice',
     'DK.C16.roundtrip_IDevice', 'DK.C16.roundtrip_IDevice2', 'DK.C16.roundtrip_GDevice', 'DK.C16.roundtrip_CDevice2',
-    'DK.C16.roundtrip_SDevice', 'DK.C16.roundtrip_ADevice_partial', 'DK.C16.roundtrip_ADevice_counterexample',
+    'DK.C16.roundtrip_SDevice', 'DK.C16.roundtrip_ADevice', 'DK.C16.old_ADevice_dump_counterexample',
     'DK.C16.roundtrip_TDevice', 'DK.C16.construct_roundtrip_TDevice', 'DK.C16.roundtrip_WindowDevice',
     'DK.C16.WindowDevice_rejects_f', 'DK.C16.roundtrip_DeviceSet', 'DK.C16.roundtrip_SubBalancedDeviceSet',
     'DK.C16.roundtrip_MFDeviceSet', 'DK.C16.roundtrip_TwoRatioMFDeviceSet', 'DK.C16.TwoRatio_requires_ratios',
     'DK.Serial.Dev.roundtrip', 'DK.Serial.Dev.construct_roundtrip',
     'DK.C16.keys_Dev', 'DK.C16.keys_TDevice',
-    'DK.C16.same_behaviour_Dev', 'DK.C16.same_behaviour_ADevice_partial', 'DK.C16.same_behaviour_TDevice',
+    'DK.C16.same_behaviour_Dev', 'DK.C16.same_behaviour_TDevice',
     'DK.C16.same_behaviour_DeviceSet', 'DK.C16.same_behaviour_SubBalancedDeviceSet',
   ]
-  # obligations over the table regenerated from the source (T1) and the model/table bridge
-  bridge = [
+  # obligations over the table regenerated from the source (T1) and the model/table bridge. They live in DK.Props.C16
+  # (the runner audits `bridge` names in DK.Lemmas.Bridge, which is the kernels' bridge), so they are listed with the theorems.
+  bridge = []
+  table_obligations = [
     'DK.C16.extraction_clean', 'DK.C16.shipped_present', 'DK.C16.mro_resolved', 'DK.C16.sig_agrees_ast', 'DK.C16.dump_defined',
     'DK.C16.dumped_keys_accepted', 'DK.C16.required_args_dumped', 'DK.C16.dump_covers_ctor', 'DK.C16.from_dict_binds',
     'DK.C16.bridge_keys', 'DK.C16.bridge_varkw', 'DK.C16.bridge_total',
   ]
+  theorems = theorems + table_obligations
+
   rule = ('every shipped class (11 atomic, 4 set classes as the ROOT of a nested tree) x horizon n x bounds forms (scalar pair / vector pair / '
           'table) x cbounds forms (None / 2-tuple / 4-tuples) x class parameters (scalar and vector, 2-D generator coefficients, rate_clip '
           'scalar / pair / None, f and user constraints for ADevice, labels/sign/apply_to_remaining, ratios) x extra **meta keys; '
@@ -478,7 +483,8 @@ class C16(Prop):
          ['sustainment', V('num', '7/8')], ['efficiency', V('num', '3/2')], ['t_init', V('num', '15')], ['t_optimal', V('num', '20')],
          ['t_range', V('num', '4')], ['t_external', V('vec', ['10', '10', '10'])], ['c', V('num', '3')]]},
          'probes': [{'s': ['1', '1/2', '2'], 'p': '1/4'}]}
-    # the two shapes that fail on the tree as it is (reported; see the module's final report / known findings)
+    # ADevice with cumulative bounds AND user constraints (repaired by /repo 31f4c67: the dump used to carry the
+    # cumulative-bound closures too); `params=` as a constructor keyword (OPEN finding: to_dict() recurses forever)
     ucons = [{'type': 'ineq', 'w': ['1', '1'], 'c': '-1/2', 'n': 2, 'jac': True}]
     a = {'kind': 'leaf', 'n': 2, 'obj': {'cls': 'ADevice', 'kw': [['id', V('str', 'a')], ['length', V('nat', 2)], ['bounds', V('pairNum', ['0', '2'])],
          ['cbounds', V('pairNum', ['1', '3'])], ['constraints', V('cons', ucons)]]}, 'probes': [{'s': ['1', '1/2'], 'p': '1/4'}]}
@@ -502,7 +508,7 @@ class C16(Prop):
     obj = build_obj(o)
     keys = [k for k, _ in o['kw']]
     extra = [k for k in keys if k not in NAMED[o['cls']]]
-    universe = sorted(set(sum([[n for n, _ in (r['sig_params'])] + r['props'] + ['id', 'length', 'bounds', 'cbounds'] for r in T1['records']], [])) | set(keys))
+    universe = sorted(set(sum([[n for n, _ in (r['sig_params'])] + r['props'] + ['id', 'length', 'bounds', 'cbounds'] for r in t1()['records']], [])) | set(keys))
 
     def vec(ks, flags=()):
       ks = list(ks)
@@ -651,7 +657,8 @@ class C16(Prop):
         note('twin shares a mutable object with the original', attr)
 
   def extra_evidence(self):
-    return {'t1_units': T1['t1_units'], 't1_fallback_units': T1['problems'], 't1_changed': T1['changed'],
+    T1 = t1()
+    return {'t1_class_units': T1['t1_units'], 't1_class_problems': T1['t1_fallback_units'],
             'table_diagnosis': T1['diagnosis'], 'input_distribution': self.dist,
             'aliasing_notes (C12 territory, not failures)': self.notes}
 
